@@ -85,6 +85,9 @@ type Config struct {
 	// ParamSalt > 0 moves every remaining parameter away from its default (windows, slash fractions, bridge address,
 	// chain id, contract hash), so that a field lost or defaulted somewhere shows
 	ParamSalt uint64 `json:"param_salt,omitempty"`
+	// StartBatchNonce / StartSequence: counters every external chain starts from (a chain that has been running for a while)
+	StartBatchNonce uint64 `json:"start_batch_nonce,omitempty"`
+	StartSequence   uint64 `json:"start_sequence,omitempty"`
 }
 
 // Chains in the order of DefaultParams.
@@ -382,7 +385,7 @@ func (h *Hub) GenesisState() mtypes.GenesisState {
 	}
 	gs := mtypes.GenesisState{Params: p, TokenInfos: ti}
 	for _, c := range Chains {
-		es := &mtypes.ExternalState{ChainId: c}
+		es := &mtypes.ExternalState{ChainId: c, LastOutgoingBatchTxNonce: cfg.StartBatchNonce, Sequence: cfg.StartSequence}
 		for i, v := range cfg.Vals {
 			for _, kc := range v.Keys {
 				if kc == c {
